@@ -10,21 +10,24 @@ LEVEL = 'proof'
 THEOREMS = [('DebInspector.Thm.C17', ['Props.C17.roundtrip', 'Props.C17.known_ending', 'Props.C17.accepted_fromString',
                                       'Props.C17.sortA_perm', 'Props.C17.last_is_max', 'Props.C17.insertA_sorted',
                                       'Props.C17.soundB', 'Props.C17.known_decomp', 'Props.C17.stem_of', 'Props.C17.endings_apart']),
-            ('DebInspector.Thm.C17C', ['Props.C17C.soundC', 'Props.C17C.parseBinary_archive', 'Props.C17C.sortA_sorted2', 'Props.C17C.groupRuns_runs',
+            ('DebInspector.Thm.C17C', ['Props.C17C.soundC', 'Props.C17C.soundC_short', 'Props.C17C.soundC_weak', 'Props.C17C.sortPy_ok',
+                                       'Props.C17C.binSort_facts', 'Props.C17C.binSort_some', 'Props.C17C.bsearch_facts', 'Props.C17C.countRun_facts',
+                                       'Props.C17C.parseBinary_archive', 'Props.C17C.sortA_sorted2', 'Props.C17C.groupRuns_runs',
                                        'Props.C17C.sortA_some', 'Props.C17C.strLt_trans', 'Props.C17C.strLt_total'])]
 TRUSTED = [
     'Lean 4.33.0 kernel',
     'reading of the property as Props.C17.holdsOnA/B/C (spec-side file-name grammar written from the sentence, independent of the code tables)',
     'hand model of get_nva / from_filename / find_latest_version(s), tied by correspondence; suffix tuples regenerated from the source each run',
-    "CPython's sorted and itertools.groupby: sorted yields a class-sorted permutation when cross-class comparisons are consistent; "
-    'its exact output is compared only when no two inputs have order-equal but different versions',
+    "CPython 3.12's sorted (Objects/listobject.c) is modelled, not verified: below 64 elements exactly (count_run, reverse of a descending run, binary insertion - the comparisons in the "
+    "interpreter's order, whatever tuple < answers); from 64 elements on only for lists on which tuple < is a strict weak order (there every stable sort gives the same list); itertools.groupby as maximal runs. "
+    'Tied by correspondence on lists of up to 70 archives with and without order-equal versions',
     'os.path.basename / splitext modelled (posix)',
     'translator harness/translate.py and this correspondence harness',
 ]
 ASSUMPTIONS = ['file names are str; binary package lists are lists of name_version_arch.deb/.udeb names']
 RULE = ('C17a: all endings x names with dots/plus x accepted versions (epochs, hyphens, tildes) x directory prefixes; '
         'C17b: malformed shapes (wrong ending, 1 or 4+ parts, invalid versions, dots-only stems) and mutations of well-formed names; '
-        'C17c: lists of 1-6 binary names with order-equal versions and epochs, all permutations for length <= 4. '
+        'C17c: lists of 1-70 binary names with order-equal versions and epochs (most short, some of 9-63, a few of 64-70), all permutations for length <= 4. '
         'non-trivial = accepted file name / list with >= 2 distinct versions')
 TECHNIQUE = ('Lean 4 theorems: rejection of every name the property says must be rejected (soundB); file-name round trip for every (directory, name, accepted version, architecture, ending) (roundtrip; the suffix tuples of get_nva are regenerated and re-checked by decide per ending); '
              'selection for every list of binary package file names (soundC): the names parse to the archives they spell, sorting never raises, the sorted list is ordered by name then version, '
@@ -32,11 +35,13 @@ TECHNIQUE = ('Lean 4 theorems: rejection of every name the property says must be
 LEVEL_TEXT = ('Props.C17.roundtrip: for every directory prefix, package name without underscore or slash, version that C03 says must be accepted (any epoch, hyphenated upstream, tildes, dots - including ".tar." inside the version), '
               'architecture (binary packages) and each of the thirteen endings, the model of DebArchive.from_filename returns exactly that name, dpkg\'s decomposition of that version, that architecture and the original path '
               '(known_ending: each ending is recognised and peeled off exactly - last dot, last underscore, last ".tar." then ".orig"/".debian" - proved per ending by decide against the regenerated tuples of get_nva; accepted_fromString from the C03 theorems). '
-              'Selection - Props.C17C.soundC: for every list of binary package file names whose parsed archives are in the model (no two versions of one name that are different but order-equal, where the exact output of '
-              'Python\'s sort is not modelled), find_latest_version returns one of the inputs that no input of its name exceeds under dpkg order, or raises ValueError when names are mixed, and find_latest_versions maps '
+              'Selection - Props.C17C.soundC_short: for EVERY list of fewer than 64 binary package file names - order-equal versions spelled differently included, where tuple < is not a strict weak order - and '
+              'Props.C17C.soundC_weak: for lists of any length without such pairs, find_latest_version returns one of the inputs that no input of its name exceeds under dpkg order, or raises ValueError when names are mixed, and find_latest_versions maps '
               'exactly the names present, each once, each to such a maximum (parseBinary_archive: a name the specification reads as binary parses to that archive, via roundtrip; sortA_some: tuple comparison never raises on '
               'binary packages; sortA_sorted2: the sorted list is ordered by name, then version - strLt is a strict total order; groupRuns_runs: the runs of equal names partition it, keys strictly increasing; '
-              'last_is_max). Lists with order-equal different versions are decided by the executable specification on the implementation\'s observations. '
+              'sortPy_ok: the model of sorted() - count_run, reversal of a strictly descending run, binary insertion with the comparisons in CPython\'s order - returns a permutation ordered by name and version class: '
+              'countRun_facts, bsearch_facts (the binary search splits the sorted prefix around the pivot using only what each single comparison says), binSort_facts; none of them asks < to be a strict weak order). '
+              'Lists of 64 or more names with order-equal different versions (merges of runs are not modelled) are decided by the executable specification on the implementation\'s observations. '
               'Props.C17.soundB: every file name with no recognised extension or suffix, with a stem that is not two or three underscore-separated parts, or whose version part is not a valid version raises ValueError '
               '(known_decomp: whenever get_nva recognises a base name with an underscore, the name is that stem plus exactly one of the thirteen endings - the last dot, the last underscore, the last ".tar." being the ones of the ending; '
               'stem_of / endings_apart: no ending is a suffix of another, so the specification reads the same stem; an accepted version part is valid by the C03 theorems). '
@@ -189,7 +194,7 @@ LATEST_VERSIONS = ['1.0', '1.00', '0:1.0', '1.0-0', '1.9', '1.10', '1.0~rc1', '1
 
 def lists(rng, n):
     for _ in range(n):
-        k = rng.choice((1, 2, 2, 3, 3, 4, 5, 6))
+        k = rng.choice((1, 2, 2, 3, 3, 4, 5, 6, 6, 9, 14, 23, 40, 63, 64, 70))
         names = ['a'] if rng.random() < 0.6 else ['a', 'b', 'lib-x']
         fns = []
         for _ in range(k):
